@@ -170,6 +170,12 @@ def run(ctx):
     props = ("WriteLocal", "ReadPure")
     sm.gen_replay(ctx, "SymbMem", consts(bases, offs, sizes, wv), 2 if ctx.quick else 3, ad, acfg=acfg, invariants=inv,
                   properties=props, timeout=3000)
+    # memcpy-like patterns: adjacent regions holding copies of adjacent original memory, read back unaligned
+    cb_, co_, cs_ = ["INT", "B"], [0, 1, 2, 3], [1, 2, 4]
+    cw_ = [{"t": "m", "b": "B", "o": o, "s": s_} for o in (0, 1, 2, 3, 4) for s_ in (2, 4)] + [{"t": "v", "n": "V2", "s": 2}]
+    cop = {"bases": cb_, "offs": co_, "sizes": cs_, "wv": cw_, "addr": addr_of(co_, cs_)}
+    sm.gen_replay(ctx, "SymbMem", consts(cb_, co_, cs_, cw_), 3, ad, acfg=cop, label="copy", timeout=3000,
+                  gops='{o \\in Ops : (o.op = "Write" /\\ o.b = "INT") \\/ (o.op = "Read" /\\ o.b = "INT")}')
     # longer mixes: simulation over the larger pools, then recorded histories validated by TLC
     bases, offs, sizes, wv = pools(False)
     big = {"bases": bases, "offs": offs, "sizes": sizes, "wv": wv, "addr": addr_of(offs, sizes)}
